@@ -16,17 +16,18 @@ VARIABLES
     ahead,  \* read call id -> writers that were observed blocked when the read call started
     canc,   \* call ids whose context has been cancelled
     rels,   \* call id -> number of calls of its release function
+    relin,  \* number of release calls in progress (called, not yet returned)
     bad     \* names of event-level conditions that failed (sticky)
 
-pvars == <<st, md, ahead, canc, rels, bad>>
+pvars == <<st, md, ahead, canc, rels, relin, bad>>
 
 PInit ==
     /\ st = <<>> /\ md = <<>> /\ ahead = <<>> /\ rels = <<>>
-    /\ canc = {} /\ bad = {}
+    /\ canc = {} /\ relin = 0 /\ bad = {}
 
 PReset ==
     /\ st' = <<>> /\ md' = <<>> /\ ahead' = <<>> /\ rels' = <<>>
-    /\ canc' = {} /\ bad' = {}
+    /\ canc' = {} /\ relin' = 0 /\ bad' = {}
 
 Ids      == DOMAIN st
 Held     == {i \in Ids : st[i] = "held"}
@@ -50,7 +51,7 @@ PCall(i, m, blk) ==
     /\ rels' = (i :> 0) @@ rels
     /\ ahead' = (i :> IF m = "r" THEN {w \in blk : w \in Ids /\ md[w] = "w" /\ st[w] = "pending"} ELSE {}) @@ ahead
     /\ bad' = bad \cup (IF i \in Ids THEN {"Harness"} ELSE {})
-    /\ UNCHANGED canc
+    /\ UNCHANGED <<canc, relin>>
 
 \* A call returns.  res: "ok" | "false" (TryLock) | "canceled".  nr, nw: the harness-owned
 \* occupancy counters after this caller incremented them (only meaningful for "ok").
@@ -67,22 +68,43 @@ PRet(i, res, nr, nw) ==
         \* granted before that writer acquired or gave up
         \cup (IF res = "ok" /\ md[i] = "r" /\ \E w \in ahead[i] : st[w] = "pending"
               THEN {"WriterPref"} ELSE {})
+        \* a TryLock that fails although nobody holds the lock, nobody else is calling and no release
+        \* is in progress: something other than a successful acquire changed who holds the lock
+        \cup (IF res = "false" /\ Held = {} /\ Pending = {i} /\ relin = 0 THEN {"Phantom"} ELSE {})
         \cup (IF res = "ok" /\ (nr # Cardinality({j \in held2 : md[j] = "r"})
                                \/ nw # Cardinality({j \in held2 : md[j] = "w"}))
               THEN {"Occ"} ELSE {})
-    /\ UNCHANGED <<md, ahead, canc, rels>>
+    /\ UNCHANGED <<md, ahead, canc, rels, relin>>
 
 \* The release function of call i is about to be called (the first such call ends the hold).
 PRelCall(i) ==
     /\ rels' = [rels EXCEPT ![i] = @ + 1]
     /\ st' = IF st[i] = "held" THEN [st EXCEPT ![i] = "released"] ELSE st
     /\ bad' = bad \cup (IF st[i] \notin {"held", "released"} THEN {"Harness"} ELSE {})
+    /\ relin' = relin + 1
     /\ UNCHANGED <<md, ahead, canc>>
+
+\* a repeated release: called and returned at once (X specs: one step)
+PRelNoop(i) ==
+    /\ rels' = [rels EXCEPT ![i] = @ + 1]
+    /\ bad' = bad \cup (IF st[i] # "released" THEN {"Harness"} ELSE {})
+    /\ UNCHANGED <<st, md, ahead, canc, relin>>
+
+\* ... and has returned
+PRelRet(i) ==
+    /\ relin' = IF relin > 0 THEN relin - 1 ELSE 0
+    /\ UNCHANGED <<st, md, ahead, canc, rels, bad>>
+
+\* A documented call panicked (e.g. "unlock of unlocked MutexLocker" when two callers hold a Mutex)
+PPanic ==
+    /\ bad' = bad \cup {"Panic"}
+    /\ relin' = 0
+    /\ UNCHANGED <<st, md, ahead, canc, rels>>
 
 \* The context of call i is cancelled.
 PCancel(i) ==
     /\ canc' = canc \cup {i}
-    /\ UNCHANGED <<st, md, ahead, rels, bad>>
+    /\ UNCHANGED <<st, md, ahead, rels, relin, bad>>
 
 \* What must hold at a point where no library-internal step is possible and exactly the
 \* calls in B are blocked inside Lock.
@@ -97,31 +119,35 @@ QuietBad(B) ==
 
 PQuiet(B) ==
     /\ bad' = bad \cup QuietBad(B)
-    /\ UNCHANGED <<st, md, ahead, canc, rels>>
+    /\ UNCHANGED <<st, md, ahead, canc, rels, relin>>
 
 \* Final probe: with nobody holding and nobody calling, TryLock(write) and TryLock(read) succeed
 \* ("afterwards the lock behaves as if that call had never been made").
 PProbe(ok) ==
-    /\ bad' = bad \cup (IF Held = {} /\ Pending = {} /\ ~ok THEN {"Residue"} ELSE {})
-    /\ UNCHANGED <<st, md, ahead, canc, rels>>
+    /\ bad' = bad \cup (IF Held = {} /\ Pending = {} /\ relin = 0 /\ ~ok THEN {"Residue", "Phantom"} ELSE {})
+    /\ UNCHANGED <<st, md, ahead, canc, rels, relin>>
 
 -----------------------------------------------------------------------------
 (* The properties *)
 
 \* C01: one writer or many readers, only between acquire and first release.
 Excl == Cardinality(HeldW) <= 1 /\ (HeldW # {} => HeldR = {})
-Safe_C01 == Excl /\ "Occ" \notin bad
+\* exclusion broken after some waiter was cancelled: the lock does not behave as if that call
+\* had never been made (C02's reading of the same observation)
+ExclAfterCancel == Excl \/ ~\E i \in Ids : st[i] = "canceled"
+
+Safe_C01 == Excl /\ bad \cap {"Occ", "Phantom", "Panic"} = {}
 
 \* C02: grantable waiters are granted, cancelled waiters leave no trace, writer preference.
-Safe_C02 == bad \cap {"Stuck", "CancelStuck", "WriterPref", "SpuriousCancel", "Residue"} = {}
+Safe_C02 == ExclAfterCancel /\ bad \cap {"Stuck", "CancelStuck", "WriterPref", "SpuriousCancel", "Residue"} = {}
 
 NoHarnessError == "Harness" \notin bad
 
 Violated ==
-    (IF Excl THEN {} ELSE {"Excl"}) \cup bad
+    (IF Excl THEN {} ELSE {"Excl"}) \cup (IF ExclAfterCancel THEN {} ELSE {"ExclAfterCancel"}) \cup bad
 
 \* name of violated condition -> property id
-PropertyOf == [Excl |-> "C01", Occ |-> "C01",
+PropertyOf == [Excl |-> "C01", Occ |-> "C01", Phantom |-> "C01", Panic |-> "C01",
                Stuck |-> "C02", CancelStuck |-> "C02", WriterPref |-> "C02",
                SpuriousCancel |-> "C02", Residue |-> "C02", Harness |-> "HARNESS",
                Unexplained |-> "HARNESS"]
